@@ -26,3 +26,12 @@ package wire
 //@   loop 1
 //@     modifies (*a)[*]
 //@     invariant len(*a) == mapLen && fresh(arr(*a)) && off(*a) == 0
+
+// wire.Address (interface contract, assumed for wire backends): Equal is a pure relation.
+//@ ghost func wAddrEq(a Address, b Address) bool
+//@ interface Address
+//@   method Equal
+//@     requires recv != nil
+//@     ensures result == wAddrEq(recv, arg0)
+//@ end
+//@ pred wireMapNonNil(m map[wallet.BackendID]Address) = forall b wallet.BackendID :: has(m, b) ==> m[b] != nil
